@@ -35,7 +35,7 @@ func init() {
 		Quick: 5000, Thorough: 500000,
 		Run:        runC08,
 		Rule:       "one run = one generated (type, value, protocol in {binary strict, binary non-strict, compact}) whose encoding E decodes; evaluations = individual faulted decodes: EOF at every offset of E through bytes.Reader and through the simulated reader (both io.ByteReader flavours), a reader error at every offset (all offsets up to 512 bytes, sampled beyond), chunk schedules, 6 byte substitutions per offset, every length / element count set to negative, oversized and out-of-range values, foreign fields of 12 shapes x 4 undeclared ids at every field boundary of every struct level, trailing bytes, each required field removed, each declared top-level field given another wire type, direct Reader method calls on arbitrary bytes. non-trivial = E has at least 2 bytes; distinct = distinct hash of (type, protocol, E)",
-		FaultKinds: []string{"eof-at-offset(bytes.Reader)", "eof-at-offset(simulated reader)", "eof-at-offset(simulated ByteReader)", "reader-error-at-offset", "chunked-delivery", "rot(byte-substitution)", "size-negative", "size-oversized", "size-out-of-range", "foreign-field", "foreign-field-nested-level", "foreign-field-with-corrupted-size", "trailing-bytes", "required-field-removed", "failed-decode-then-decode", "wire-type-changed(strict)", "wire-type-changed(non-strict)", "reader-method-on-arbitrary-bytes", "scaling-probe(n vs 8n elements)", "protocol:binary", "protocol:binary-nonstrict", "protocol:compact", "cut-inside-length", "data+err"},
+		FaultKinds: []string{"eof-at-offset(bytes.Reader)", "eof-at-offset(simulated reader)", "eof-at-offset(simulated ByteReader)", "reader-error-at-offset", "chunked-delivery", "rot(byte-substitution)", "size-negative", "size-oversized", "size-out-of-range", "foreign-field", "foreign-field-nested-level", "foreign-field-with-corrupted-size", "trailing-bytes", "required-field-removed", "failed-decode-then-decode", "wire-type-changed(strict)", "wire-type-changed(non-strict)", "reader-method-on-arbitrary-bytes", "scaling-probe(n vs 8n elements)", "inflated-count-on-a-long-collection", "protocol:binary", "protocol:binary-nonstrict", "protocol:compact", "cut-inside-length", "data+err"},
 		ProbeNames: []string{"messages", "precondition-failed(skipped)", "struct-levels>1", "E>=128B", "required-fields", "alloc-precise-samples", "eof-k0", "sites", "reference-parse-failed(structural operators skipped)"},
 		Real:       []string{"thrift.Unmarshal, thrift.Decoder (strict and non-strict), binary and compact Readers compiled from /repo's working tree (uninstrumented)"},
 		Model:      []string{"storage/transport medium (fault operators over the encoded bytes)", "io.Reader (simio.Reader with and without io.ByteReader)", "reference thrift parser/serialiser for both protocols (verifsim/ref) used to locate sizes and struct levels and to build foreign fields, removed fields and retyped fields"},
@@ -340,6 +340,21 @@ func runC08(r *core.Run) {
 		vg.MaxLen = 20
 	}
 	v := vg.New(ty.rt)
+	if u, ok := v.Interface().(*TUnion); ok {
+		// a union carries exactly one member
+		full := *u
+		*u = TUnion{}
+		switch t.Intn(4) {
+		case 0:
+			u.A = true
+		case 1:
+			u.B = full.B | 1
+		case 2:
+			u.C = full.C + "x"
+		default:
+			u.D = TInner{A: true, B: full.D.B, C: full.D.C}
+		}
+	}
 	p := thriftProtos[pi]
 	e, err := thriftMarshalNoPanic(p, v.Elem().Interface())
 	maxE := 2 << 10
@@ -931,6 +946,15 @@ func warmThrift(p thrift.Protocol, rt reflect.Type) {
 	thrift.Unmarshal(p, []byte{0}, reflect.New(rt).Interface())
 }
 
+// bigSites returns the size sites of a struct encoding (first = the outermost collection).
+func bigSites(b []byte, compact bool) []ref.TSite {
+	_, sites, err := ref.ThriftParse(b, ref.TStruct, compact, !compact)
+	if err != nil {
+		return nil
+	}
+	return sites
+}
+
 // c08Scaling: a list / map with 8 times as many elements may allocate at most 16
 // times as much (plus slack): linear growth, whatever the constant.
 func c08Scaling(r *core.Run) bool {
@@ -989,6 +1013,47 @@ func c08Scaling(r *core.Run) bool {
 	}
 	if e1 != nil || e8 != nil {
 		core.Harness("C08 scaling probe input rejected (%s, %s): %v %v", thriftProtoNames[pi], name, e1, e8)
+	}
+	// a long list / set that really delivers its elements, under a header that
+	// announces far more: must fail, within the bound on the bytes available
+	if sites8 := bigSites(big, compact); len(sites8) > 0 {
+		s0 := sites8[0]
+		var repl []byte
+		if compact {
+			repl = ref.AppendUvarint(nil, 1<<28, 0)
+			if s0.Short {
+				repl = append([]byte{0xF0 | byte(s0.Elem)}, repl...)
+			}
+		} else {
+			repl = []byte{0x10, 0, 0, 0}
+		}
+		m := splice(big, s0.Off, s0.N, repl)
+		x := reflect.New(rt)
+		before := totalAlloc()
+		var err error
+		func() {
+			defer func() {
+				if e := recover(); e != nil {
+					p8 = fmt.Sprintf("%v\n%s", e, stackOfLibrary())
+				}
+			}()
+			err = thrift.Unmarshal(p, m, x.Interface())
+		}()
+		d := totalAlloc() - before
+		r.Evaluations++
+		r.Fault("inflated-count-on-a-long-collection")
+		if p8 != "" {
+			r.Fail("panic", "decode-panic:"+panicSite(p8), "thrift.Unmarshal panicked on %s with an inflated count: %s", name, p8)
+			return false
+		}
+		if err == nil {
+			r.Fail("bad-size-accepted", "size-oversized-accepted:long-collection", "%s announcing 2^28 elements but delivering %d is accepted without error (%s)", name, 8*n, thriftProtoNames[pi])
+			return false
+		}
+		if d > 1<<20+1024*uint64(len(m)) {
+			r.Fail("allocation", "alloc-unbounded:inflated-count-on-a-long-collection", "thrift.Unmarshal (%s) of %s announcing 2^28 elements and delivering %d (%d bytes) allocated %d bytes (bound 1 MiB + 1024 x available)", thriftProtoNames[pi], name, 8*n, len(m), d)
+			return false
+		}
 	}
 	if a8 > 16*a1+1<<20 {
 		r.Fail("allocation", "alloc-superlinear", "thrift.Unmarshal (%s) of %s: %d elements (%d bytes) allocate %d bytes, %d elements (%d bytes) allocate %d bytes: 8 times the input costs %.1f times the memory (bound 16x + 1 MiB)", thriftProtoNames[pi], name, n, len(small), a1, 8*n, len(big), a8, float64(a8)/float64(a1+1))
